@@ -640,12 +640,12 @@ func (obj *SparseFloat64Vector) ITERATOR_FROM(i int) *SparseFloat64VectorIterato
   return &r
 }
 func (obj *SparseFloat64Vector) JOINT_ITERATOR(b ConstVector) *SparseFloat64VectorJointIterator {
-  r := SparseFloat64VectorJointIterator{obj.ITERATOR(), b.ConstIterator(), -1, Float64{}, nil}
+  r := SparseFloat64VectorJointIterator{obj.ITERATOR(), b.ConstIterator(), -1, Float64{}, nil, false}
   r.Next()
   return &r
 }
 func (obj *SparseFloat64Vector) JOINT3_ITERATOR(b, c ConstVector) *SparseFloat64VectorJoint3Iterator {
-  r := SparseFloat64VectorJoint3Iterator{obj.ITERATOR(), b.ConstIterator(), c.ConstIterator(), -1, Float64{}, nil, nil}
+  r := SparseFloat64VectorJoint3Iterator{obj.ITERATOR(), b.ConstIterator(), c.ConstIterator(), -1, Float64{}, nil, nil, false}
   r.Next()
   return &r
 }
@@ -718,13 +718,13 @@ type SparseFloat64VectorJointIterator struct {
   idx int
   s1 Float64
   s2 ConstScalar
+  ok bool
 }
 func (obj *SparseFloat64VectorJointIterator) Index() int {
   return obj.idx
 }
 func (obj *SparseFloat64VectorJointIterator) Ok() bool {
-  return !(obj.s1.ptr == nil || obj.s1.GetFloat64() == float64(0)) ||
-         !(obj.s2 == nil || obj.s2.GetFloat64() == float64(0))
+  return obj.ok
 }
 func (obj *SparseFloat64VectorJointIterator) Next() {
   ok1 := obj.it1.Ok()
@@ -745,6 +745,9 @@ func (obj *SparseFloat64VectorJointIterator) Next() {
       obj.s2 = obj.it2.GetConst()
     }
   }
+  // the iterator is valid as long as one of the vectors delivered an entry,
+  // regardless of its value
+  obj.ok = obj.s1.ptr != nil || obj.s2 != nil
   if obj.s1.ptr != nil {
     obj.it1.Next()
   }
@@ -778,6 +781,7 @@ func (obj *SparseFloat64VectorJointIterator) Clone() *SparseFloat64VectorJointIt
   r.idx = obj.idx
   r.s1 = obj.s1
   r.s2 = obj.s2
+  r.ok = obj.ok
   return &r
 }
 func (obj *SparseFloat64VectorJointIterator) CloneConstJointIterator() VectorConstJointIterator {
@@ -796,14 +800,13 @@ type SparseFloat64VectorJoint3Iterator struct {
   s1 Float64
   s2 ConstScalar
   s3 ConstScalar
+  ok bool
 }
 func (obj *SparseFloat64VectorJoint3Iterator) Index() int {
   return obj.idx
 }
 func (obj *SparseFloat64VectorJoint3Iterator) Ok() bool {
-  return !(obj.s1.ptr == nil || obj.s1.GetFloat64() == float64(0)) ||
-         !(obj.s2 == nil || obj.s2.GetFloat64() == float64(0)) ||
-         !(obj.s3 == nil || obj.s3.GetFloat64() == float64(0))
+  return obj.ok
 }
 func (obj *SparseFloat64VectorJoint3Iterator) Next() {
   ok1 := obj.it1.Ok()
@@ -839,6 +842,9 @@ func (obj *SparseFloat64VectorJoint3Iterator) Next() {
       obj.s3 = obj.it3.GetConst()
     }
   }
+  // the iterator is valid as long as one of the vectors delivered an entry,
+  // regardless of its value
+  obj.ok = obj.s1.ptr != nil || obj.s2 != nil || obj.s3 != nil
   if obj.s1.ptr != nil {
     obj.it1.Next()
   }
